@@ -11,6 +11,14 @@ let oracle_of (s : string) : z list outcome =
 
 let show_bytes b = "ok " ^ hex_of_bytes b
 
+(* all results of a history, or the first failure *)
+let show_history (rs : z list outcome list) : string =
+  let rec go acc = function
+    | [] -> "ok " ^ String.concat " " (List.rev acc)
+    | Ok b :: r -> go (hex_of_bytes b :: acc) r
+    | o :: _ -> obs_outcome (fun _ -> "") o in
+  go [] rs
+
 let eval fn args : string option =
   match fn, args with
   (* x86Convert with everything exposed: enc ip state data -> data state ret *)
@@ -33,6 +41,27 @@ let eval fn args : string option =
   | "lzmaenc", [x; raw0; raw1] ->
     Some (obs_outcome show_bytes
             (lzma_encode (fun eos _ -> oracle_of (if eos then raw1 else raw0)) (bytes_of_hex x)))
+  (* histories: e_i := Encode(x_i) for all i, every result observed after the last call.
+     The codec core is a function of its argument: the table built from the arguments. *)
+  | "lzmaseq", l ->
+    let rec items = function
+      | x :: r0 :: r1 :: rest -> (bytes_of_hex x, (r0, r1)) :: items rest
+      | _ -> [] in
+    let tbl = items l in
+    let core eos x = let (r0, r1) = List.assoc x tbl in oracle_of (if eos then r1 else r0) in
+    Some (show_history (call_history (lzma_encode core) (List.map fst tbl)))
+  | "zlibseq", l ->
+    let rec items = function
+      | x :: c :: rest -> (bytes_of_hex x, bytes_of_hex c) :: items rest
+      | _ -> [] in
+    let tbl = items l in
+    Some (show_history (call_history (zlib_encode (fun x -> List.assoc x tbl)) (List.map fst tbl)))
+  | "sysseq", l ->
+    let rec items = function
+      | x :: raw :: rest -> (bytes_of_hex x, raw) :: items rest
+      | _ -> [] in
+    let tbl = items l in
+    Some (show_history (call_history (syslzma_encode (fun x -> oracle_of (List.assoc x tbl))) (List.map fst tbl)))
   | _ -> None
 
 let () = run_file (fun fn args -> eval fn args) Sys.argv.(1)
